@@ -154,3 +154,87 @@ Example C04_ex : U_add true 8 [255; 255; 255] [1; 0; 0] = Panic /\
   U_add false 8 [255; 255; 255] [1; 0; 0] = Ret [0; 0; 0] /\
   U_Shl_prim true 8 AI8 [1; 0; 0] (-1) = Panic /\ U_Shl_prim false 8 AI8 [1; 0; 0] (-1) = Ret [0; 0; 128].
 Proof. vm_compute. repeat split. Qed.
+(* ==== glue tie, round 2 (text written by tools/mk_gluetie.py; keep at the END of the file) ==== *)
+(* ---- tie to the source, second round: the non-loop functions (the operator trait impls of src/int/ops.rs (impls!), src/buint/ops.rs, src/bint/ops.rs that forward to the inherent methods: Add Sub Mul Div Rem Neg Not BitAnd BitOr BitXor, Div / Rem by a digit, Shl / Shr for the twelve primitive amount types (shift_impl!, try_shift_impl! expansions: widening cast, or u32::try_from + expect in debug builds and `as u32` otherwise)) REGENERATED from /repo/src on every run
+   (Generated/Glue.v, tools/rs2v_glue.py) are the model's, function by function, for every digit width, digit count,
+   build mode and operand (no well-formedness hypothesis): an edit of the source that changes what one of these
+   functions computes or delegates to breaks this theorem ---- *)
+From Bnum.Model Require Import Digit Core Shift AddSub Mul Div Bits Pow.
+From Bnum.Model Require Ops NumTraits.
+From Bnum.Generated Require Import Glue.
+From Bnum.Proofs Require Import GlueTieCommon GlueTieC04.
+Theorem C04_glue_rs_matches_model :
+  (forall dbg w a b, Glue.U_Add_add dbg w a b = U_add dbg w a b) /\
+  (forall dbg w a b, Glue.U_Mul_mul dbg w a b = U_mul dbg w a b) /\
+  (forall dbg w a b, Glue.U_Sub_sub dbg w a b = U_sub dbg w a b) /\
+  (forall dbg w a b, Glue.I_Add_add dbg w a b = I_add dbg w a b) /\
+  (forall dbg w a b, Glue.I_Mul_mul dbg w a b = I_mul dbg w a b) /\
+  (forall dbg w a b, Glue.I_Sub_sub dbg w a b = I_sub dbg w a b) /\
+  (forall w a, Glue.U_Not_ref_not w a = bitnot w a) /\
+  (forall w a, Glue.I_Not_ref_not w a = bitnot w a) /\
+  (forall dbg w a k, Glue.U_Shl_ExpType_shl dbg w a k = Ops.U_Shl_prim dbg w Ops.AU32 a k) /\
+  (forall dbg w a k, Glue.U_Shr_ExpType_shr dbg w a k = Ops.U_Shr_prim dbg w Ops.AU32 a k) /\
+  (forall dbg w a k, Glue.I_Shl_ExpType_shl dbg w a k = Ops.I_Shl_prim dbg w Ops.AU32 a k) /\
+  (forall dbg w a k, Glue.I_Shr_ExpType_shr dbg w a k = Ops.I_Shr_prim dbg w Ops.AU32 a k) /\
+  (forall w a b, Glue.U_BitAnd_bitand w a b = bitand a b) /\
+  (forall w a b, Glue.U_BitOr_bitor w a b = bitor a b) /\
+  (forall w a b, Glue.U_BitXor_bitxor w a b = bitxor a b) /\
+  (forall w a b, Glue.U_Div_div w a b = U_div w a b) /\
+  (forall w a b, Glue.U_Rem_rem w a b = U_rem w a b) /\
+  (forall w a, Glue.U_Not_not w a = bitnot w a) /\
+  (forall w a k, Glue.U_Div_digit_div w a k = Ops.U_Div_digit w a k) /\
+  (forall w a k, Glue.U_Rem_digit_rem w a k = Ops.U_Rem_digit w a k) /\
+  (forall dbg w a, Glue.I_Neg_neg dbg w a = I_neg dbg w a) /\
+  (forall dbg w a, Glue.I_Neg_ref_neg dbg w a = I_neg dbg w a) /\
+  (forall w a b, Glue.I_BitAnd_bitand w a b = bitand a b) /\
+  (forall w a b, Glue.I_BitOr_bitor w a b = bitor a b) /\
+  (forall w a b, Glue.I_BitXor_bitxor w a b = bitxor a b) /\
+  (forall dbg w a b, Glue.I_Div_div dbg w a b = I_div dbg w a b) /\
+  (forall dbg w a b, Glue.I_Rem_rem dbg w a b = I_rem dbg w a b) /\
+  (forall w a, Glue.I_Not_not w a = bitnot w a) /\
+  (forall dbg w a k, Glue.U_Shl_u8_shl dbg w a k = Ops.U_Shl_prim dbg w Ops.AU8 a k) /\
+  (forall dbg w a k, Glue.I_Shl_u8_shl dbg w a k = Ops.I_Shl_prim dbg w Ops.AU8 a k) /\
+  (forall dbg w a k, Glue.U_Shl_u16_shl dbg w a k = Ops.U_Shl_prim dbg w Ops.AU16 a k) /\
+  (forall dbg w a k, Glue.I_Shl_u16_shl dbg w a k = Ops.I_Shl_prim dbg w Ops.AU16 a k) /\
+  (forall dbg w a k, Glue.U_Shl_i8_shl dbg w a k = Ops.U_Shl_prim dbg w Ops.AI8 a k) /\
+  (forall dbg w a k, Glue.I_Shl_i8_shl dbg w a k = Ops.I_Shl_prim dbg w Ops.AI8 a k) /\
+  (forall dbg w a k, Glue.U_Shl_i16_shl dbg w a k = Ops.U_Shl_prim dbg w Ops.AI16 a k) /\
+  (forall dbg w a k, Glue.I_Shl_i16_shl dbg w a k = Ops.I_Shl_prim dbg w Ops.AI16 a k) /\
+  (forall dbg w a k, Glue.U_Shl_i32_shl dbg w a k = Ops.U_Shl_prim dbg w Ops.AI32 a k) /\
+  (forall dbg w a k, Glue.I_Shl_i32_shl dbg w a k = Ops.I_Shl_prim dbg w Ops.AI32 a k) /\
+  (forall dbg w a k, Glue.U_Shl_isize_shl dbg w a k = Ops.U_Shl_prim dbg w Ops.AIsize a k) /\
+  (forall dbg w a k, Glue.I_Shl_isize_shl dbg w a k = Ops.I_Shl_prim dbg w Ops.AIsize a k) /\
+  (forall dbg w a k, Glue.U_Shl_i64_shl dbg w a k = Ops.U_Shl_prim dbg w Ops.AI64 a k) /\
+  (forall dbg w a k, Glue.I_Shl_i64_shl dbg w a k = Ops.I_Shl_prim dbg w Ops.AI64 a k) /\
+  (forall dbg w a k, Glue.U_Shl_i128_shl dbg w a k = Ops.U_Shl_prim dbg w Ops.AI128 a k) /\
+  (forall dbg w a k, Glue.I_Shl_i128_shl dbg w a k = Ops.I_Shl_prim dbg w Ops.AI128 a k) /\
+  (forall dbg w a k, Glue.U_Shl_usize_shl dbg w a k = Ops.U_Shl_prim dbg w Ops.AUsize a k) /\
+  (forall dbg w a k, Glue.I_Shl_usize_shl dbg w a k = Ops.I_Shl_prim dbg w Ops.AUsize a k) /\
+  (forall dbg w a k, Glue.U_Shl_u64_shl dbg w a k = Ops.U_Shl_prim dbg w Ops.AU64 a k) /\
+  (forall dbg w a k, Glue.I_Shl_u64_shl dbg w a k = Ops.I_Shl_prim dbg w Ops.AU64 a k) /\
+  (forall dbg w a k, Glue.U_Shl_u128_shl dbg w a k = Ops.U_Shl_prim dbg w Ops.AU128 a k) /\
+  (forall dbg w a k, Glue.I_Shl_u128_shl dbg w a k = Ops.I_Shl_prim dbg w Ops.AU128 a k) /\
+  (forall dbg w a k, Glue.U_Shr_u8_shr dbg w a k = Ops.U_Shr_prim dbg w Ops.AU8 a k) /\
+  (forall dbg w a k, Glue.I_Shr_u8_shr dbg w a k = Ops.I_Shr_prim dbg w Ops.AU8 a k) /\
+  (forall dbg w a k, Glue.U_Shr_u16_shr dbg w a k = Ops.U_Shr_prim dbg w Ops.AU16 a k) /\
+  (forall dbg w a k, Glue.I_Shr_u16_shr dbg w a k = Ops.I_Shr_prim dbg w Ops.AU16 a k) /\
+  (forall dbg w a k, Glue.U_Shr_i8_shr dbg w a k = Ops.U_Shr_prim dbg w Ops.AI8 a k) /\
+  (forall dbg w a k, Glue.I_Shr_i8_shr dbg w a k = Ops.I_Shr_prim dbg w Ops.AI8 a k) /\
+  (forall dbg w a k, Glue.U_Shr_i16_shr dbg w a k = Ops.U_Shr_prim dbg w Ops.AI16 a k) /\
+  (forall dbg w a k, Glue.I_Shr_i16_shr dbg w a k = Ops.I_Shr_prim dbg w Ops.AI16 a k) /\
+  (forall dbg w a k, Glue.U_Shr_i32_shr dbg w a k = Ops.U_Shr_prim dbg w Ops.AI32 a k) /\
+  (forall dbg w a k, Glue.I_Shr_i32_shr dbg w a k = Ops.I_Shr_prim dbg w Ops.AI32 a k) /\
+  (forall dbg w a k, Glue.U_Shr_isize_shr dbg w a k = Ops.U_Shr_prim dbg w Ops.AIsize a k) /\
+  (forall dbg w a k, Glue.I_Shr_isize_shr dbg w a k = Ops.I_Shr_prim dbg w Ops.AIsize a k) /\
+  (forall dbg w a k, Glue.U_Shr_i64_shr dbg w a k = Ops.U_Shr_prim dbg w Ops.AI64 a k) /\
+  (forall dbg w a k, Glue.I_Shr_i64_shr dbg w a k = Ops.I_Shr_prim dbg w Ops.AI64 a k) /\
+  (forall dbg w a k, Glue.U_Shr_i128_shr dbg w a k = Ops.U_Shr_prim dbg w Ops.AI128 a k) /\
+  (forall dbg w a k, Glue.I_Shr_i128_shr dbg w a k = Ops.I_Shr_prim dbg w Ops.AI128 a k) /\
+  (forall dbg w a k, Glue.U_Shr_usize_shr dbg w a k = Ops.U_Shr_prim dbg w Ops.AUsize a k) /\
+  (forall dbg w a k, Glue.I_Shr_usize_shr dbg w a k = Ops.I_Shr_prim dbg w Ops.AUsize a k) /\
+  (forall dbg w a k, Glue.U_Shr_u64_shr dbg w a k = Ops.U_Shr_prim dbg w Ops.AU64 a k) /\
+  (forall dbg w a k, Glue.I_Shr_u64_shr dbg w a k = Ops.I_Shr_prim dbg w Ops.AU64 a k) /\
+  (forall dbg w a k, Glue.U_Shr_u128_shr dbg w a k = Ops.U_Shr_prim dbg w Ops.AU128 a k) /\
+  (forall dbg w a k, Glue.I_Shr_u128_shr dbg w a k = Ops.I_Shr_prim dbg w Ops.AU128 a k).
+Proof. exact glue_ops_matches_model. Qed.
+Print Assumptions C04_glue_rs_matches_model.
